@@ -14,6 +14,7 @@ import (
 	"hash/fnv"
 	"math/rand"
 	"os"
+	"os/exec"
 	"path/filepath"
 	"runtime/debug"
 	"sort"
@@ -41,6 +42,9 @@ type Prop struct {
 	Exhaustive bool
 	// Timeout per op (default 20s); an op that exceeds it yields "timeout".
 	Timeout time.Duration
+	// Procs > 1: op lines are executed by that many child processes (for executors that need
+	// process-global state such as the yield callback, so cannot run concurrently in one process).
+	Procs int
 }
 
 var registry = map[string]*Prop{}
@@ -194,6 +198,52 @@ func main() {
 	}
 
 	outs := make([]string, len(c.ops))
+	if p.Procs > 1 && os.Getenv("WVH_CHILD") == "" && len(c.ops) > 2*p.Procs {
+		runInChildren(id, p, c.ops, outs, *out)
+	} else {
+		execAll(p, c.ops, outs)
+	}
+	finish(id, p, c, outs, *out, *tier, *seed, *replay, start)
+}
+
+func runInChildren(id string, p *Prop, ops, outs []string, out string) {
+	self, _ := os.Executable()
+	var wg sync.WaitGroup
+	n := p.Procs
+	for k := 0; k < n; k++ {
+		wg.Add(1)
+		go func(k int) {
+			defer wg.Done()
+			dir := filepath.Join(out, fmt.Sprintf("child%d", k))
+			_ = os.MkdirAll(dir, 0o755)
+			chunk := filepath.Join(dir, "chunk.ops")
+			f, _ := os.Create(chunk)
+			idxs := []int{}
+			for i := k; i < len(ops); i += n {
+				fmt.Fprintf(f, "%s %s\n", id, ops[i])
+				idxs = append(idxs, i)
+			}
+			f.Close()
+			cmd := exec.Command(self, id, "-replay", chunk, "-out", dir)
+			cmd.Env = append(os.Environ(), "WVH_CHILD=1")
+			cmd.Stderr = os.Stderr
+			_ = cmd.Run()
+			data, err := os.ReadFile(filepath.Join(dir, "impl.txt"))
+			lines := strings.Split(strings.TrimSuffix(string(data), "\n"), "\n")
+			for j, i := range idxs {
+				if err == nil && j < len(lines) {
+					outs[i] = lines[j]
+				} else {
+					outs[i] = "child-failed"
+				}
+			}
+			_ = os.RemoveAll(dir)
+		}(k)
+	}
+	wg.Wait()
+}
+
+func execAll(p *Prop, ops, outs []string) {
 	workers := p.Workers
 	if workers < 1 {
 		workers = 1
@@ -205,16 +255,19 @@ func main() {
 		go func() {
 			defer wg.Done()
 			for i := range idx {
-				outs[i] = safeExec(p, strings.Fields(c.ops[i]))
+				outs[i] = safeExec(p, strings.Fields(ops[i]))
 			}
 		}()
 	}
-	for i := range c.ops {
+	for i := range ops {
 		idx <- i
 	}
 	close(idx)
 	wg.Wait()
+}
 
+func finish(id string, p *Prop, c *Ctx, outs []string, outDir, tierS string, seedV int64, replayS string, start time.Time) {
+	out, tier, seed, replay := &outDir, &tierS, &seedV, &replayS
 	if err := os.MkdirAll(*out, 0o755); err != nil {
 		fmt.Fprintln(os.Stderr, err)
 		os.Exit(2)
